@@ -67,6 +67,18 @@ CHECKS = {
         "note": NOTE_COMMON + " kirin's CallGraphPass cloning and the Fold that follows injection are exercised, not verified.",
         "technique": "Coq proof by fuel induction with an injection map on values (closures) + reflected rule table + differential",
     },
+    "C09": {
+        "text": "Theorems about a model of has_quantum_runtime over an abstraction of the compiled IR: if it answers False then NO execution - any "
+                "branch, any trip count, any dynamically resolved callee, call depth bounded exactly like the interpreters' max_depth - performs a "
+                "device-visible operation (so an acting kernel gets True or a refusal); a call graph without device-visible statements and "
+                "without dynamically resolved calls gets False; a reachable dynamic call makes the query refuse. Tie: each of the eight "
+                "device-visible statements and a quiet statement at 23 positions (branches, returning ifs, loops with carried variables up to "
+                "depth 3, subroutines incl. recursive, closures called / returned / never called, before and after dynamic calls); the "
+                "implementation's answer is compared with the model on the abstracted IR, and 'acts' is established by executing every kernel "
+                "for all arguments of a small domain; single-statement answers of every statement kind are reflected.",
+        "note": NOTE_COMMON + " 'dynamically resolved' is read as: the compiled call carries no constant hint for its callee (DESIGN.md section 10).",
+        "technique": "Coq soundness proof of the analysis model against a nondeterministic execution relation + IR-abstraction correspondence",
+    },
     "C11": {
         "text": "Theorems: every path the tracer model yields is well formed (invariant proved for all op sequences) and reversal preserves "
                 "well-formedness. wfb is evaluated in Coq on every path produced by generated kernels, library kernels and their reversals; a Python "
